@@ -584,7 +584,7 @@ class Analysis:
                     estimates[i, i_pauli] = estimate
                     uncertainties[i, i_pauli] = uncertainty
             estimates_list.append(estimates)
-            uncertainties_list.append(estimates)
+            uncertainties_list.append(uncertainties)
         self._results['single_qubit_p_est'] = estimates_list
         self._results['single_qubit_p_se'] = uncertainties_list
 
